@@ -150,6 +150,33 @@ CHECKS['C05'] = dict(
     note='Trusted: clang-14 -O1 IR; virtual dispatch executed from the vtable in the IR; both sides use the library kernels (decided in '
          'C02/C03/C11), so the subject is the glue; quick: (d,nx,nrho) in 7 configurations up to d=6, nx=4; thorough: d=2..6 x nx=2..5.',
     design='§3 C05')
+CHECKS['C04'] = dict(
+    text='PARTIAL (callback contract and bookkeeping; the integrator-accuracy clause is outside the technique). A SQuIDS subclass whose five '
+         'terms and PreDerive are uninterpreted functions of (node, index, time, component) is executed symbolically through ini, the '
+         'Set_*Terms setters (all 32 settings; single switches in all 5 setter orders), Evolve, RHS, set_system_pointers and Derive under '
+         'a nondeterministic, contract-respecting stub of the GSL odeiv2 driver (scripts of <=3 callbacks per integration with input in '
+         '{y, scratch1, scratch2} and output in {deriv1, deriv2}, two consecutive Evolve calls, adaptive and fixed entry points, success '
+         'and failure status). For every callback z3 decides on the normal-form residual that the output buffer equals '
+         'i[rho,HI] - {Gamma,rho} + I_rho and -Gamma_s s + I_s per node/matrix/scalar built from the INPUT buffer with the arguments (node, '
+         'index, stepper time); every output entry is written, nothing else of the driver\'s buffers is, PreDerive(tau) precedes the terms, '
+         'exactly the enabled terms are called once, the callback parameter is the evolving object, enabled terms imply an integration, '
+         'the clock advances by dt, views are re-aliased to the stored state, a failing status becomes std::runtime_error.',
+    note='Trusted: clang-14 -O1 IR; GSL driver stub (assumes the first callback of an integration is at the state vector, as all explicit GSL '
+         'steppers do); OUTSIDE: "agrees with closed-form solutions to the requested tolerance for every stepper" -- GSL is compiled code '
+         'without IR; that clause is only exercised natively (every stepper, adaptive and fixed, against scipy) on one configuration per run '
+         'and in the replay of candidates.',
+    design='§3 C04, §4')
+CHECKS['C10'] = dict(
+    text='PARTIAL (bookkeeping clauses; "equals a single Evolve within tolerance" is outside the technique). Histories of up to 4 operations over '
+         '{Evolve(dt), Evolve(0), toggle switches, all terms off, adaptive<->fixed, move-construct, move-assign, re-initialise} are executed '
+         'symbolically on real SQuIDS objects under the GSL stub, half of them with an allocator that re-issues freed addresses: Get_t() = '
+         't_ini + sum dt as a polynomial identity (fixed stepping: t + n*(dt/n)); with all terms off the stored state is term-identical and '
+         'PreDerive(t_new) is called exactly once on the evolving object; after every Evolve each in-step view is the stored state at its '
+         'documented offset; after a move the ODE callbacks are bound to the new object and read the buffer handed to them; re-ini starts a '
+         'fresh clock.',
+    note='Trusted: as C04. OUTSIDE: equality of the integrated state with a single Evolve over the total interval (GSL integrators); '
+         'exercised natively only (split vs single interval in the C04 replay).',
+    design='§3 C10, §4')
 NA_REASON = 'check not built yet (framework under construction; see DESIGN.md)'
 NA = {}
 
